@@ -7,7 +7,7 @@ Core Lean only.
 -/
 namespace Goyang.Lemmas.Indent
 open Goyang.Model.Indent
-open Goyang.Spec.Indent (tagged render callerBytesIn atStartAfter)
+open Goyang.Spec.Indent (cutState tagged render callerBytesIn atStartAfter)
 
 theorem specNL : Goyang.Spec.Indent.NL = NL := rfl
 
@@ -318,6 +318,125 @@ theorem written_write (pre : Bytes) (p : Bool) {s : Bytes} (h : s ≠ []) (k : N
   rw [List.drop_left' (tp_length pre)]
   simp [callerBytesIn]
 
+/-! ### the line state after a short write (`partialAfter`) -/
+
+theorem lines_mem_ne_nil (s : Bytes) : ∀ l ∈ lines s, l ≠ [] := by
+  induction s with
+  | nil => simp [lines_nil]
+  | cons b r ih =>
+    by_cases hb : b = NL
+    · subst hb; rw [lines_NL]
+      intro l hl
+      rcases List.mem_cons.mp hl with rfl | hl
+      · simp
+      · exact ih l hl
+    · rw [lines_cons hb]
+      cases hr : lines r with
+      | nil => simp
+      | cons h t =>
+        intro l hl
+        rcases List.mem_cons.mp hl with rfl | hl
+        · simp
+        · exact ih l (by rw [hr]; exact List.mem_cons_of_mem _ hl)
+
+/-- The line state the code must record when the last byte taken is byte `j` of the tagged output:
+a caller byte leaves the line open unless it is a line feed; a prefix byte leaves it open (the prefix
+is out) unless the next byte is a prefix byte too. -/
+def codeState (T : List (UInt8 × Bool)) (j : Nat) : Bool :=
+  match T[j]? with
+  | some (b, true) => b != NL
+  | some (_, false) =>
+    (match T[j + 1]? with
+     | some (_, false) => false
+     | _ => true)
+  | none => false
+
+theorem codeState_append_right (A B : List (UInt8 × Bool)) (j : Nat) (h : A.length ≤ j) :
+    codeState (A ++ B) j = codeState B (j - A.length) := by
+  have h1 : (A ++ B)[j]? = B[j - A.length]? := List.getElem?_append_right h
+  have h2 : (A ++ B)[j + 1]? = B[j - A.length + 1]? := by
+    rw [List.getElem?_append_right (by omega)]; congr 1; omega
+  simp only [codeState, h1, h2]
+
+theorem tl_getElem? (l : Bytes) (j : Nat) : (tl l)[j]? = (l[j]?).map (·, true) := by
+  simp [tl]
+
+theorem tp_getElem? (l : Bytes) (j : Nat) : (tp l)[j]? = (l[j]?).map (·, false) := by
+  simp [tp]
+
+/-- The loop of `partialAfter` finds the line state at the cut (`j + 1` bytes taken of what is left
+of the joined output), provided every line after the first element is non-empty (as the lines of
+a split text are). -/
+theorem partialAfterGo_eq (pre : Bytes) (all ls : List Bytes) (first : Bool) (j : Nat)
+    (hj : j < ((pjoin pre ls).drop (if first then pre.length else 0)).length)
+    (hne : ∀ l ∈ ls.drop (if first then 1 else 0), l ≠ []) :
+    partialAfterGo pre.length all first (j + 1) ls =
+      some (codeState ((pjoin pre ls).drop (if first then pre.length else 0)) j) := by
+  induction ls generalizing first j with
+  | nil => simp at hj
+  | cons line rest ih =>
+    -- the part shared by both values of `first`: `m + 1` bytes of `tl line ++ pjoin pre rest`
+    have body : ∀ m : Nat, m < (tl line ++ pjoin pre rest).length → (∀ l ∈ rest, l ≠ []) →
+        (if m + 1 ≤ line.length then (line[m]?).map (· != NL)
+         else partialAfterGo pre.length all false (m + 1 - line.length) rest) =
+        some (codeState (tl line ++ pjoin pre rest) m) := by
+      intro m hm hrest
+      by_cases hml : m + 1 ≤ line.length
+      · have hlt : m < line.length := by omega
+        have : (tl line ++ pjoin pre rest)[m]? = some (line[m], true) := by
+          rw [List.getElem?_append_left (by simpa using hlt), tl_getElem?]; simp [hlt]
+        simp [hml, codeState, this, hlt]
+      · have hge : line.length ≤ m := by omega
+        have e : m + 1 - line.length = (m - line.length) + 1 := by omega
+        rw [if_neg hml, e]
+        have := ih false (m - line.length) (by simp at hm ⊢; omega) (by simpa using hrest)
+        simp only [Bool.false_eq_true, if_false, List.drop_zero] at this
+        rw [this, codeState_append_right _ _ _ (by simpa using hge)]
+        simp
+    cases first with
+    | true =>
+      simp only [if_true, pjoin_cons] at hj hne ⊢
+      rw [List.drop_left' (tp_length pre)] at hj ⊢
+      have hrest : ∀ l ∈ rest, l ≠ [] := by simpa using hne
+      have := body j hj hrest
+      simp only [partialAfterGo, Bool.not_true, Bool.false_and, Bool.false_eq_true, if_false, if_true]
+      split
+      · next h => simpa [h] using this
+      · next h => simpa [h] using this
+    | false =>
+      simp only [Bool.false_eq_true, if_false, List.drop_zero, pjoin_cons] at hj hne ⊢
+      have hline : line ≠ [] := hne line (by simp)
+      have hrest : ∀ l ∈ rest, l ≠ [] := fun l hl => hne l (by simp [hl])
+      simp only [partialAfterGo, Bool.not_false, Bool.true_and, Bool.false_eq_true, if_false]
+      by_cases h1 : j + 1 < pre.length
+      · -- inside the prefix
+        have a : (tp pre ++ (tl line ++ pjoin pre rest))[j]? = some (pre[j], false) := by
+          rw [List.getElem?_append_left (by simp; omega), tp_getElem?]; simp [show j < pre.length by omega]
+        have b : (tp pre ++ (tl line ++ pjoin pre rest))[j + 1]? = some (pre[j + 1], false) := by
+          rw [List.getElem?_append_left (by simp; omega), tp_getElem?]; simp [h1]
+        simp [h1, codeState, a, b]
+      · by_cases h2 : j + 1 = pre.length
+        · -- exactly after the prefix
+          have hl0 : 0 < line.length := List.length_pos_iff.mpr hline
+          have a : (tp pre ++ (tl line ++ pjoin pre rest))[j]? = some (pre[j], false) := by
+            rw [List.getElem?_append_left (by simp; omega), tp_getElem?]; simp [show j < pre.length by omega]
+          have b : (tp pre ++ (tl line ++ pjoin pre rest))[j + 1]? = some (line[0], true) := by
+            rw [List.getElem?_append_right (by simp; omega),
+              List.getElem?_append_left (by simp; omega), tl_getElem?]
+            simp [h2, hl0]
+          simp only [codeState, a, b]
+          simp [h2]
+        · have hge : pre.length ≤ j := by omega
+          have e : j + 1 - pre.length = (j - pre.length) + 1 := by omega
+          have hm : j - pre.length < (tl line ++ pjoin pre rest).length := by
+            simp at hj ⊢; omega
+          have := body (j - pre.length) hm hrest
+          rw [codeState_append_right _ _ _ (by simpa using hge)]
+          simp only [tp_length]
+          rw [← this]
+          simp only [h1, e]
+          simp
+
 /-! ### `write`, as a whole record -/
 
 theorem write_none_eq (pre : Bytes) (p : Bool) (buf : Bytes) :
@@ -335,14 +454,59 @@ theorem callerBytesIn_min (pre : Bytes) (a : Bool) (s : Bytes) (k : Nat) :
   have hlen : (render pre a s).length = (tagged pre a s).length := by simp [render]
   simp only [callerBytesIn, hlen, ← List.take_eq_take_min]
 
+/-- The line state `Write` records on a short write: that of the cut, as the specification of
+histories has it (`cutState`); after a cut inside a prefix: "at a line start". -/
+def stateOfCut : Option Bool → Bool
+  | some a => !a
+  | none => false
+
+theorem partialAfter_write (pre : Bytes) (p : Bool) {s : Bytes} (h : s ≠ []) (k : Nat) :
+    partialAfter (min k (render pre (!p) s).length) pre.length (if p then lines s else [] :: lines s) p =
+      some (stateOfCut (cutState pre (!p) s k)) := by
+  have hlen : (render pre (!p) s).length = (tagged pre (!p) s).length := by simp [render]
+  have hne : (if p then lines s else [] :: lines s) ≠ [] := by
+    cases p
+    · simp
+    · simpa using lines_ne_nil h
+  have hT : (pjoin pre (if p then lines s else [] :: lines s)).drop pre.length = tagged pre (!p) s := by
+    rw [pjoin_eq pre hne, tjoin_write pre p h, List.drop_left' (tp_length pre)]
+  rw [hlen]
+  cases hk : min k (tagged pre (!p) s).length with
+  | zero => simp [partialAfter, cutState, hk, stateOfCut]
+  | succ j =>
+    simp only [partialAfter, cutState, hk]
+    have hj : j < (tagged pre (!p) s).length := by omega
+    have hmem : ∀ l ∈ (if p then lines s else [] :: lines s).drop 1, l ≠ [] := by
+      intro l hl
+      cases p
+      · exact lines_mem_ne_nil s l (by simpa using hl)
+      · exact lines_mem_ne_nil s l (List.mem_of_mem_tail (by simpa using hl))
+    have := partialAfterGo_eq pre (if p then lines s else [] :: lines s) (if p then lines s else [] :: lines s)
+      true j (by simpa [hT] using hj) (by simpa using hmem)
+    simp only [if_true, hT] at this
+    simp only [this, Option.some.injEq]
+    have hsome : ∃ x, (tagged pre (!p) s)[j]? = some x := ⟨_, List.getElem?_eq_getElem hj⟩
+    obtain ⟨⟨b, t⟩, hx⟩ := hsome
+    cases t with
+    | true => simp [codeState, hx, stateOfCut, specNL, bne]
+    | false =>
+      simp only [codeState, hx]
+      cases hy : (tagged pre (!p) s)[j + 1]? with
+      | none => simp [stateOfCut]
+      | some y =>
+        obtain ⟨b', t'⟩ := y
+        cases t' <;> simp [stateOfCut]
+
 theorem write_some_eq (pre : Bytes) (p : Bool) {buf : Bytes} (h : buf ≠ []) (k : Nat) :
     write pre p buf (some k) =
-      { partial_ := !(atStartAfter (!p) buf), handed := render pre (!p) buf,
-        reached := (render pre (!p) buf).take k, n := callerBytesIn pre (!p) buf k, err := true } := by
+      { partial_ := stateOfCut (cutState pre (!p) buf k), handed := render pre (!p) buf,
+        reached := (render pre (!p) buf).take k, n := callerBytesIn pre (!p) buf k, err := true,
+        crash := false } := by
   have hj := join_write pre p h
-  have hp := partial_bit pre (!p) h
   have hw := written_write pre p h (min k (render pre (!p) buf).length)
   have hc := callerBytesIn_min pre (!p) buf k
-  simp only [write, List.isEmpty_iff, h, if_false, hj, hp, hw, hc, ← List.take_eq_take_min]
+  have hs := partialAfter_write pre p h k
+  simp only [write, List.isEmpty_iff, h, if_false, hj, hw, hc, hs, ← List.take_eq_take_min,
+    Option.isNone_some]
 
 end Goyang.Lemmas.Indent
